@@ -3,14 +3,15 @@
 COMPONENTS = {
     "real_code": ["raft.go", "replication.go", "api.go", "fsm.go", "snapshot.go", "future.go", "commitment.go", "configuration.go", "state.go", "util.go",
                   "observer.go", "log_cache.go (swarm option)", "progress.go"],
-    "replaced": ["Go scheduler's choice of runnable goroutine and of ready select case (seeded chooser)", "clock (testing/synctest bubble clock)",
+    "replaced": ["Go scheduler's choice of runnable goroutine and of ready select case (seeded chooser)", "clock (testing/synctest bubble clock; time.Now/Since/After/NewTimer/NewTicker of the protocol sources read a per-server clock whose rate is a swarm knob)",
                  "math/rand and crypto/rand inside package raft (seeded streams)"],
     "stubs": ["Transport (SimTransport: drop/delay/duplicate/partition)", "LogStore+StableStore (simdisk: plain / monotonic / commit-tracking)",
               "SnapshotStore (simdisk)", "FSM (recording hash-chain FSM)"],
 }
 
 ASSUMPTIONS = [
-    "store contract: an operation that returned nil is durable and each store operation is atomic w.r.t. a crash",
+    "store contract: an operation that returned nil is durable and each store operation is atomic w.r.t. a crash (except, with the plain log store and the swarm knob "
+    "torn_batches, a crash placed at a StoreLogs of several entries, which may leave a proper prefix of the batch durable)",
     "context switches happen at blocking points and at simulator hooks (disk, network, FSM calls), not between arbitrary instructions",
     "the syntactic instrumenter preserves behaviour (validated by running the repository's own tests on the instrumented copy)",
     "sampling: a clean batch is evidence, not proof",
@@ -178,3 +179,5 @@ PROFILES["C07"]["also_report"] = ["C05/commit-without-voter-majority", "C05/arit
 # C01's third observation (DESIGN §7 C01 (c)): one voter never grants two candidates in one term, over all its
 # incarnations; the oracle files it under C06, the C01 check reports it as its own as well.
 PROFILES["C01"]["also_report"] = ["C06/two-grants-in-term"]
+PROFILES["C07"]["rule"] = PROFILES["C07"]["rule"] + (" The C07 check also runs the non-voter profile of C05 and the commitment table AUX05 (see C05) and reports the classes "
+                                                     "C05/commit-without-voter-majority and C05/arith-* as its own (a non-voter is never counted in commitment).")
